@@ -63,7 +63,7 @@ func (m *machine) allocSize(v value, what string) int {
 	if !t.IsConst() && m.allocMax > 0 {
 		// is a size beyond the bound feasible?
 		big := m.ctx.SLt(m.ctx.BV(uint64(m.allocMax), t.Width()), t)
-		if m.chk( big) != Unsat {
+		if m.chk(big) != Unsat {
 			m.violate("alloc", "AllocBound", fmt.Sprintf("allocation size can exceed %d at %s", m.allocMax, m.where()))
 		}
 	}
@@ -1511,6 +1511,15 @@ func (m *machine) selectResult(instr *ssa.Select, idx int, recv value, recvOk bo
 // chooseN is a nondeterministic choice 0..n-1: forks without the solver.
 func (m *machine) chooseN(n int, what string) int {
 	v := 0
+	if m.eng.concrete != nil {
+		v = m.eng.concreteChoice(n)
+		kind := "choose"
+		if what != "Choose" {
+			kind = "internal"
+		}
+		m.nondets = append(m.nondets, nondetRec{Name: fmt.Sprintf("n%d_%s", len(m.nondets), kind), Term: m.ctx.BV(uint64(v), 64), Kind: kind, Extra: n})
+		return v
+	}
 	if m.di < len(m.prefix) {
 		d := m.prefix[m.di]
 		if d.Kind != 'c' {
